@@ -260,6 +260,7 @@ fn main() {
         let _ = c.wait();
     }
     if matches!(prop.as_str(), "C01" | "C02" | "C07" | "C08" | "C09") { c01::report_flags(&mut ctx); }
+    if matches!(prop.as_str(), "C13" | "C14") { c01::report_ddl_flags(&mut ctx); }
     let report = serde_json::json!({
         "property": prop,
         "tier": tier,
